@@ -294,6 +294,18 @@ class Node:
         node._root = self._root
         self._branch[node.name] = node
         node._treepath = self._treepath+'/'+node.name
+        # the branch downstream of `node` moves with it
+        node._update_branch()
+
+    def _update_branch(self):
+        """
+        Sets the root and treepath of all nodes downstream of this node
+        to match this node's root and treepath.
+        """
+        for key,child in self._branch.items():
+            child._root = self._root
+            child._treepath = self._treepath+'/'+key
+            child._update_branch()
 
     def force_add_to_tree(self,node):
         """
